@@ -192,6 +192,7 @@ type Gen struct {
 	Tagged   bool    // values are unique string tags only (C04)
 	Shallow  bool    // documents: objects hold primitives only (C02's reference can derive every identity)
 	Exotic   float64 // probability that a value is a Go-native exotic value (GoVal)
+	ExactF32 bool    // float32 values are limited to ones whose float64 widening prints identically
 	NilField bool    // exotic structs may carry nil slice / map / pointer fields
 }
 
@@ -373,6 +374,15 @@ func (g *Gen) Op(rep *Rep) Op {
 	panic("bad type")
 }
 
+// SeqOp: a valid insert / delete / update on a sequence of current length n at path.
+func (g *Gen) SeqOp(n int, path []interface{}) Op {
+	d := 0
+	if path != nil {
+		d = 1
+	}
+	return g.seqOp(n, path, d)
+}
+
 // seqOp: insert / delete / update on a sequence of current length n.
 func (g *Gen) seqOp(n int, path []interface{}, depth int) Op {
 	r := g.R
@@ -499,6 +509,9 @@ func (g *Gen) GoVal(withNilFields bool) interface{} {
 		return uint64(n)
 	case 8:
 		fs := []float32{0.1, 1.5, 3.4e38, -2.25, 1e-7, 16777217}
+		if g.ExactF32 {
+			fs = []float32{0.5, 1.5, -2.25, 16777216, 1024.125}
+		}
 		return fs[r.Intn(len(fs))]
 	case 9:
 		fs := []float64{0.1, 1e21, 1e-7, -0.0, 123456789.123456789, 5e-324, 1.7976931348623157e308}
@@ -514,6 +527,9 @@ func (g *Gen) GoVal(withNilFields bool) interface{} {
 		return &v
 	case 13:
 		v := float32(0.1)
+		if g.ExactF32 {
+			v = 0.25
+		}
 		return &v
 	case 14:
 		return TaggedStruct{A: int(n % 1000), B: g.Str(), C: 0.25, D: true}
